@@ -269,6 +269,9 @@ def enabled(w, guard_used):
             sts.append(("backward", n))
             sts.append(("clear", n))
         sts.append(("fail", n))
+        sts.append(("fail_fpe", n))
+        if k == "ten":
+            sts.append(("fail_idx", n))
         if n not in ("A", "R"):
             sts.append(("del", n))
     return sts
@@ -288,6 +291,8 @@ def render(st):
         "backward": lambda: "%s.backward()" % st[1],
         "clear": lambda: "%s.clear_graph()" % st[1],
         "fail": lambda: "try: mg.matmul(%s, np.zeros((9, 9)))\nexcept ValueError: pass" % st[1],
+        "fail_fpe": lambda: "try:\n    with np.errstate(divide='raise'): mg.divide(%s, 0.0)\nexcept FloatingPointError: pass" % st[1],
+        "fail_idx": lambda: "try: %s[7]\nexcept IndexError: pass" % st[1],
         "del": lambda: "del %s" % st[1],
     }[k]()
 
@@ -347,6 +352,23 @@ def apply(w, st):
             except ValueError as e:
                 del e
             w.enter(src if isinstance(src, np.ndarray) else src.data)
+        elif k == "fail_fpe":
+            src = s[st[1]]
+            try:
+                with np.errstate(divide="raise"):
+                    mg.divide(src, 0.0)
+                res = ("no_raise", "")
+            except FloatingPointError as e:
+                del e
+            w.enter(src if isinstance(src, np.ndarray) else src.data)
+        elif k == "fail_idx":
+            src = s[st[1]]
+            try:
+                src[7]
+                res = ("no_raise", "")
+            except IndexError as e:
+                del e
+            w.enter(src.data)
         elif k == "del":
             w.drop(st[1])
     except Exception as e:
@@ -435,7 +457,7 @@ def explore(wkind, prefix, depth, acc):
             continue
         acc.outcome("ok")
         acc.inc("traces")
-        if any(s[0] in ("backward", "clear", "del", "fail") for s in h) and any(s[0] in ("mul", "alias", "out", "tview", "iadd") for s in h):
+        if any(s[0] in ("backward", "clear", "del", "fail", "fail_fpe", "fail_idx") for s in h) and any(s[0] in ("mul", "alias", "out", "tview", "iadd") for s in h):
             acc.nontrivial.add(base.stable_hash((wkind, h)))
         if len(acc.samples) < 2 and len(h) == depth:
             acc.samples.append("[%s] " % wkind + "; ".join(render(s) for s in h))
